@@ -22,8 +22,8 @@ CLAIMED = {
     "C10": ("pt", "exploration",
             "Consists of 1-8 generated units of mixed kind, rating, SOC and order under both shipped policies, demands from full dynamic braking to full traction, asymmetric warm-up histories, depleted/full batteries among healthy units; split reference evaluated on every accepted consist tick; panics in the split code are violations.",
             "Trusted: split reference (~60 lines); conservation tolerance 1e-8 relative (the code's own)."),
-    "C19": ("pt", "exploration",
-            "Locomotive and consist simulations with save intervals None/1/n, interval changes mid-run, rejected ticks, crash/restore; after every event the reference (own step counter, own expected length) is compared with every state.i, history length, save_interval and i-column in the object tree. (Train-level simulations are added by the trn world.)",
+    "C19": ("pt+trn", "exploration",
+            "Locomotive, consist (incl. the shipped hybrid unit), set-speed and speed-limited simulations (shipped walk, timed-path protocol, simulator steps) with save intervals None/1/n, interval changes mid-run, rejected ticks, runs ending with an error, crash/restore; after every event the reference (own step counter, own expected length) is compared with every state.i, history length, save_interval and i-column in the object tree (train, friction brake, consist, units, components).",
             "Trusted: alignment reference (~40 lines)."),
 }
 
@@ -40,6 +40,24 @@ CLAIMED.update({
     "C16": ("val", "fault_enumeration",
             "For every generated valid network every rule of the statement is broken in isolation at every link where that is expressible (58 rule-breaking kinds incl. out-of-range references, NaN / negative / zero values), 10 rule-keeping edits are applied the same way, and the verdict of validate() - and on a seeded sample of from_yaml / from_json / from_reader under short reads, EINTR, hard errors and early EOF / from_file on real files / from_file on a hand-written legacy layout - is compared with an independent reference validator (accepted <=> consistent); a panic is a violation and does not stop the enumeration.",
             "Trusted: reference validator (~170 lines) and its reading of 'well-formed and non-overlapping' (DESIGN C16); the reference is itself checked against each mutation's label and a disagreement is a harness error, not a verdict."),
+})
+
+CLAIMED.update({
+    "C03": ("trn", "exploration",
+            "Speed-limited trains built through TrainSimBuilder on generated networks, driven by the simulator's own step loop with a simulated dispatcher->train authority channel (extensions delivered early, just in time, late - the train must stand at the end of authority and restart -, in batches, preceded by empty extensions), by the protocol of walk_timed_path on generated timed paths (ties, out-of-order times), and whole-path; crash/restore of the whole simulation between steps; dt in {0.5, 1, 2} s. Per executed step: speed >= 0, <= limit in force, <= posted restriction at the front (pointwise-minimum reference), target <= limit, inside the path; end: Ok => at rest in the stopping window, Err => names a cause, panic = violation; bounded liveness: at rest outside the stopping window for > 900 steps, or not arrived within 4 x remaining metres + 3000 steps after the last delivery and the last fault. The shipped walk()/walk_timed_path() are then run on the same scenario and must reproduce the driven run bit for bit.",
+            "Trusted: pointwise-minimum reference; grade bound 0.8 %; liveness bounds as stated. Light trains are generated at a low rate only (open finding C03-stops-short-of-window-on-final-braking-curve)."),
+    "C07": ("trn", "exploration",
+            "Set-speed and speed-limited runs over routes mixing very short and very long links with trains shorter and longer than a link, so the cached front/rear indices cross several points per step, sit on one point, and are re-based by path extensions mid-run; crash/restore between steps (the indices are serialised state); forces recomputed per executed step from the network (elevation and curve walks over the route's own points) and from coefficients re-aggregated from the car list.",
+            "Trusted: resistance reference (~80 lines), 1e-9 relative + 1e-6 N; force at step k belongs to position/speed of step k-1; library gravity constant."),
+    "C11": ("trn", "exploration",
+            "Same runs; per executed step train wheel power = consist delivered power and the cumulative wheel energies (net, positive, negative) agree between train and consist; at the end of every run that ended Ok consist totals = sums over locomotives and the trip-level getters = totals x the documented annualisation factor (simulation_days varied); crash/restore re-initialises the three nested levels separately.",
+            "Trusted: 1e-9 relative (1e-8 on instantaneous power)."),
+    "C12": ("trn", "exploration",
+            "Same runs incl. links much shorter than one step of travel, irregular set-speed time stamps, stops at the end of authority and restarts, crash/restore; kinematic reference per executed step (time, front advance = dt x mean speed, rear = front - length, total distance, front segment / in-segment offset).",
+            "Trusted: kinematic reference (~50 lines); offset tolerance 1e-5 m."),
+    "C14": ("trn", "exploration",
+            "Set-speed runs with generated non-negative traces with irregular time stamps (dt jumps, plateaus, stops, accelerations and brakings beyond what the consist can deliver so both clips bind), driven by the shipped walk() and by simulator steps with crash/restore and interval changes; per step time/speed = trace, pwr_accel, pwr_res, wheel power = clip(inertia + resistance) with clips computed from published consist state only, energies accumulate that power x the trace's own dt.",
+            "Trusted: power reference (~50 lines), 1e-9 relative; upper clip includes the published rate limit."),
 })
 
 NOT_YET = {
